@@ -56,6 +56,9 @@ func runC04(c *engine.Ctx, tier string) {
 	c.Guard(engine.Guard{ID: "C04.1c", Pkg: pkgConfigCtl, None: true, Rule: "K-own(rhs)",
 		Sel: engine.Sel{Field: fMaster, NotRHS: "@CFG.Status.Mastership.Master", Lit: true},
 		Why: "the applied master is a copy of the current master"})
+	// the term is the only trigger of the re-push: every assignment of a (new) master must start a new term
+	c.Al = configAliases(c.P)
+	electionRule(c, "C04.9")
 	// (3) nothing new while synchronizing
 	c.Al = proposalAliases(c.P)
 	c.Guard(engine.Guard{ID: "C04.3", Pkg: pkgProposalCtl, Min: 1, Sel: engine.Sel{Call: sbSet},
